@@ -5,7 +5,7 @@ from pv import env, exact, gens
 
 ID = "C16"
 LEVEL = "exploration"
-N = {"quick": 400, "thorough": 8000}
+N = {"quick": 1000, "thorough": 8000}
 RULE = ("cases = (contract, list of (source,target) mappings) covering target fresh / existing input / existing output / source absent / "
         "source = target, swaps through a temporary name, chains, and targets whose coefficients add up or cancel; single renames via "
         "rename_variable, lists via rename_variables; reference model = substitution on the term dictionaries; oracle: interface sets as "
